@@ -65,6 +65,12 @@ pub fn sources(vals: &[u32], w: i32, h: i32, quick: bool) -> Vec<SrcSpec> {
     if !quick {
         v.push(SrcSpec::Image { w: 1, h: 1, data: vec![0x80402010], repeat: false, bilinear: true, xf: [1., 0., 0., 1., 3., -2.] });
     }
+    // constant images under non-integer sampling transforms: every shader variant
+    // (pad/repeat x nearest/bilinear x alpha/no alpha) with a colour known without a sampler model
+    for (i, (repeat, bilinear)) in [(false, false), (false, true), (true, false), (true, true)].iter().enumerate() {
+        let c = [0xff204080u32, 0x80002040, 0xfe00fe7f, 0x40400020][i];
+        v.push(SrcSpec::Image { w: 2, h: 2, data: vec![c; 4], repeat: *repeat, bilinear: *bilinear, xf: [0.7, 0.2, -0.3, 1.1, 0.35, -0.6] });
+    }
     // constant gradients (every stop the same colour): the colour is known without a t model
     v.push(SrcSpec::Linear { stops: vec![Stop { pos: 0.0, color: 0x80ff8040 }, Stop { pos: 1.0, color: 0x80ff8040 }], spread: Spr::Pad, p: [0., 0., 5., 3.] });
     if !quick {
